@@ -1,6 +1,6 @@
 (* C10 - All views of the board describe one consistent legal position. *)
 From Coq Require Import NArith List Bool.
-From Arimaa Require Import Types U64 Board Engine Cells Rules Monitors StepLemmas GenLemmas Invariant Traps Setup Pending.
+From Arimaa Require Import Types U64 Board Engine Cells Rules Monitors StepLemmas GenLemmas Invariant Traps Setup Pending Material Counting.
 Open Scope N_scope.
 
 (* every state satisfying the (inductive) play-phase invariant has a well-formed board: each occupied
@@ -42,3 +42,9 @@ Proof.
   rewrite (si_phase s n Inv) in P. discriminate.
 Qed.
 Print Assumptions C10_traps_reachable.
+
+(* material: in every state of every game from the initial state each side has at most 1 elephant, 1 camel, 2 horses,
+   2 dogs, 2 cats and 8 rabbits (npk counts the squares holding a given owner and kind) *)
+Theorem C10_material : forall s, ReachI s -> forall o k, (npk (cell (board s)) o k <= N.to_nat (complement k))%nat.
+Proof. intros s R. exact (proj1 (reachI_within s R)). Qed.
+Print Assumptions C10_material.
